@@ -33,7 +33,7 @@
 #else
 #define COV_dialer_timer_cb(c)
 #endif
-#ifdef VP_COVER_dialer_connect_cb
+#if defined(VP_COVER_dialer_connect_cb) || defined(VP_COVER_dialer_connect_cb_ok) || defined(VP_COVER_dialer_connect_cb_fail)
 #define COV_dialer_connect_cb(c) COVER_ON(c)
 #else
 #define COV_dialer_connect_cb(c)
@@ -370,6 +370,9 @@ COV_dialer_timer_cb(DD->d_tmo_aio.a_result == 0) COV_dialer_timer_cb(DD->d_tmo_a
 static void dialer_connect_cb(void *arg)
 __CPROVER_requires(FRESH(arg, nni_dialer) && FRESH(DD->d_sock, SOCKT) && D_OPS_OK(DD) && VP_NO_LOCK_HELD)
 __CPROVER_requires(CC_CASE)
+#ifdef EP_CC_PROBE /* reachability probe only (never in a registered unit): background dial refused */
+__CPROVER_requires(DR == NNG_ECONNREFUSED && DD->d_user_aio == NULL)
+#endif
 __CPROVER_requires(DD->d_user_aio == NULL || FRESH(DD->d_user_aio, nni_aio))
 /* the completed connect was the dialer's only activity: no pipe owned, nothing outstanding */
 __CPROVER_requires(!g_con_busy && DD->d_pipe == NULL && EP_RT_INV(DD))
